@@ -6,6 +6,7 @@ import (
 
 	_ "verif/checks/histfile"
 	_ "verif/checks/jobs"
+	_ "verif/checks/scoping"
 )
 
 func main() { vlib.Main() }
